@@ -3,6 +3,9 @@
 /*  BSD-style license: http://synthcode.com/license.txt       */
 
 #include <chibi/eval.h>
+#if SEXP_USE_BIGNUMS
+#include <chibi/bignum.h>
+#endif
 
 #define HASH_DEPTH 5
 #define HASH_BOUND sexp_make_fixnum(SEXP_MAX_FIXNUM)
@@ -60,14 +63,27 @@ static sexp_uint_t hash_one (sexp ctx, sexp obj, sexp_uint_t bound, sexp_sint_t 
     else
 #endif
     if (sexp_pointerp(obj)) {
-      if (depth > 0) {
+      if (sexp_stringp(obj)) {
+        /* hash the characters, consistent with equal? on strings */
+        p0 = sexp_string_data(obj);
+        for (i=0; i<(sexp_sint_t)sexp_string_size(obj); i++) {acc *= FNV_PRIME; acc ^= p0[i];}
+#if SEXP_USE_BIGNUMS
+      } else if (sexp_bignump(obj)) {
+        /* hash the value (sign and significant words), consistent with */
+        /* equal? which ignores leading zero words */
+        acc ^= (sexp_uint_t)sexp_bignum_sign(obj);
+        len = sexp_bignum_hi(obj);
+        p0 = (char*)sexp_bignum_data(obj);
+        for (i=0; i<len*(sexp_sint_t)sizeof(sexp_uint_t); i++) {acc *= FNV_PRIME; acc ^= p0[i];}
+#endif
+      } else if (depth > 0) {
         t = sexp_object_type(ctx, obj);
         p = (sexp*) (((char*)obj) + sexp_type_field_base(t));
         p0 = ((char*)obj) + offsetof(struct sexp_struct, value);
         /* if the field_base is 0, skip to the value */
         if ((sexp)p == obj) p=(sexp*)p0;
         /* hash uvector data (otherwise strings all hash to the same value) */
-        if (sexp_bytesp(obj) || sexp_uvectorp(obj) || sexp_bignump(obj)) {
+        if (sexp_bytesp(obj) || sexp_uvectorp(obj)) {
           p_right = ((char*)p + sexp_type_num_slots_of_object(t, obj)*sizeof(sexp));
           right_size = ((char*)obj + sexp_type_size_of_object(t, obj)) - p_right;
           for (i=0; i<right_size; i++) {acc *= FNV_PRIME; acc ^= p_right[i];}
